@@ -99,6 +99,34 @@ def clause_a(c: Check):
     ok = isinstance(r, ast.Call) and len(r.args) == 2 and unparse(r.args[1]) == 'self._builder.environ' \
          and unparse(r.args[0]) == 'self._builder.stdin'
     c.expect(ok, 'C11-a', 'as_atc_execution_input', 'the act input is not (builder.stdin, builder.environ)', f.loc())
+    # ... resolved for the actor as it is: the act set - None while untouched (= the environment Exactly was started
+    # with) - is never replaced by another environment on the way (the environment of the application environment is
+    # the NON-act set)
+    adv = ix.cls('exactly_lib.execution.partial_execution.setup_settings_handler:AtcExecutionInputAdv')
+    aei = ix.cls('exactly_lib.test_case.phases.act.execution_input:AtcExecutionInput')
+    res = ix.class_member(adv, 'resolve')
+    n_res = 0
+    for label, env_val in (('untouched', NONE), ('populated', Sym('the-act-set', nullness=False))):
+        class HR(Hooks):
+            def inline(self, fd, st):
+                return fd.cls is adv
+        it = Interp(ix, c.fo, HR())
+        insts = it.instantiate(adv, State(), {'stdin': NONE, 'environ': env_val})
+        c.require(len(insts) == 1, 'C11-a: constructor of AtcExecutionInputAdv has %d paths' % len(insts))
+        obj, st = insts[0]
+        for p in it.run_function(res, {}, st, recv=obj):
+            n_res += 1
+            got = None
+            if p.kind == 'return':
+                con = util.constructed(ix, p.val)
+                if con and con[0] == aei.key:
+                    got = con[3].get('environ')
+            same = got is env_val or (isinstance(got, K) and got.v is None and env_val is NONE)
+            c.expect(same, 'C11-a', 'AtcExecutionInputAdv.resolve/act-environ/' + label,
+                     'with the act set %s the input of the action to check is given the environment %s, not the act '
+                     'set' % (label, util.describe(got) if got is not None else (p.kind if p.kind != 'return' else '?')),
+                     res.loc())
+    c.floor('C11-a', 'paths of AtcExecutionInputAdv.resolve', n_res, 2)
     fa = ix.func('exactly_lib.impls.actors.util.atc_proc_exe_settings:for_atc')
     pes = ix.cls('exactly_lib.util.process_execution.execution_elements:ProcessExecutionSettings')
     n_ret = 0
